@@ -50,7 +50,7 @@ static size_t plen;
 static long counter, at;
 static int kind, err, param;
 static int fired, fired_class, frozen, full, torn_fd = -1, torn_err;
-static long n_mutating, n_observing, n_failed;
+static long n_mutating, n_observing, n_failed, n_real_failed;
 static unsigned char tracked[FDMAX];
 static char fired_what[64];
 static char logbuf[32768];
@@ -98,7 +98,7 @@ void verif_fsfault_arm(const char *dir, long at_index, int fault_kind, int errno
     while (plen > 1 && prefix[plen - 1] == '/') prefix[--plen] = 0;
     counter = 0; at = at_index; kind = fault_kind; err = errno_value; param = parameter;
     fired = 0; fired_class = -1; frozen = 0; full = 0; torn_fd = -1; torn_err = 0;
-    n_mutating = n_observing = n_failed = 0;
+    n_mutating = n_observing = n_failed = n_real_failed = 0;
     fired_what[0] = 0; loglen = 0; loghash = 0xcbf29ce484222325ULL;
     armed = 1;
 }
@@ -111,12 +111,13 @@ void verif_fsfault_set_relative(long rel_index, int fault_kind, int errno_value,
 }
 
 /* out[0]=calls seen, out[1]=fired, out[2]=mutating calls, out[3]=observing calls,
- * out[4]=calls failed by the shim, out[5]=log hash, out[6]=class of the call the fault hit */
+ * out[4]=calls failed by the shim, out[5]=log hash, out[6]=class of the call the fault hit,
+ * out[7]=mutating calls that failed for real (not injected; mkdir EEXIST is not a failure) */
 void verif_fsfault_disarm(long *out) {
     armed = 0;
     if (out) {
         out[0] = counter; out[1] = fired; out[2] = n_mutating; out[3] = n_observing;
-        out[4] = n_failed; out[5] = (long)loghash; out[6] = fired_class;
+        out[4] = n_failed; out[5] = (long)loghash; out[6] = fired_class; out[7] = n_real_failed;
     }
 }
 
@@ -139,6 +140,16 @@ void verif_fsfault_mark(long op_index, const char *text) {
         snprintf(what, sizeof what, "== op %ld", op_index);
         log_call(-1, what, text);
     }
+}
+
+/* a mutating call failed on its own (nothing injected): the operating system refused it */
+static void real_failure(const char *what) {
+    int e = errno;
+    n_real_failed++;
+    char text[48];
+    snprintf(text, sizeof text, "errno=%d", e);
+    log_call(-2, what, text);
+    errno = e;
 }
 
 #define D_PROCEED 0
@@ -194,6 +205,7 @@ int open64(const char *path, int flags, ...) {
     int d = decide(writing ? C_OPENW : C_OBSERVE, writing ? "open-w" : "open-r", rel(path));
     if (d == D_FAIL) return -1;
     int fd = real_open64(path, flags, mode);
+    if (fd < 0 && writing) real_failure("real-failure-open-w");
     if (fd >= 0) track(fd, (flags & O_DIRECTORY) ? T_DIR : (writing ? T_FILE : 0));
     if (d == D_THEN_FAIL && fd >= 0) { close(fd); errno = err; n_failed++; return -1; }
     return fd;
@@ -213,6 +225,7 @@ int openat64(int dirfd, const char *path, int flags, ...) {
     int d = decide(writing ? C_OPENW : C_OBSERVE, writing ? "openat-w" : "openat-r", rel(path));
     if (d == D_FAIL) return -1;
     int fd = real_openat64(dirfd, path, flags, mode);
+    if (fd < 0 && writing) real_failure("real-failure-openat-w");
     if (fd >= 0) track(fd, writing ? T_FILE : T_DIR);
     if (d == D_THEN_FAIL && fd >= 0) { close(fd); errno = err; n_failed++; return -1; }
     return fd;
@@ -244,6 +257,7 @@ ssize_t write(int fd, const void *buf, size_t len) {
         if (!fired) { fired = 1; fired_class = C_WRITE; snprintf(fired_what, sizeof fired_what, "write"); }
     }
     ssize_t w = real_write(fd, buf, n);
+    if (w < 0) real_failure("real-failure-write");
     if (d == D_THEN_FAIL) { errno = err; n_failed++; return -1; }
     return w;
 }
@@ -287,6 +301,7 @@ int unlink(const char *path) {
     int d = decide(C_MUTATE, "unlink", rel(path));
     if (d == D_FAIL) return -1;
     int r = real_unlink(path);
+    if (r < 0) real_failure("real-failure-unlink");
     if (d == D_THEN_FAIL) { errno = err; n_failed++; return -1; }
     return r;
 }
@@ -298,6 +313,7 @@ int unlinkat(int dirfd, const char *path, int flags) {
     int d = decide(C_MUTATE, (flags & AT_REMOVEDIR) ? "unlinkat-dir" : "unlinkat", rel(path));
     if (d == D_FAIL) return -1;
     int r = real_unlinkat(dirfd, path, flags);
+    if (r < 0) real_failure("real-failure-unlinkat");
     if (d == D_THEN_FAIL) { errno = err; n_failed++; return -1; }
     return r;
 }
@@ -308,6 +324,7 @@ int rmdir(const char *path) {
     int d = decide(C_MUTATE, "rmdir", rel(path));
     if (d == D_FAIL) return -1;
     int r = real_rmdir(path);
+    if (r < 0) real_failure("real-failure-rmdir");
     if (d == D_THEN_FAIL) { errno = err; n_failed++; return -1; }
     return r;
 }
@@ -318,6 +335,8 @@ int mkdir(const char *path, mode_t mode) {
     int d = decide(C_MUTATE, "mkdir", rel(path));
     if (d == D_FAIL) return -1;
     int r = real_mkdir(path, mode);
+    /* EEXIST and ENOENT are how create_dir_all finds its way; neither is a refused write */
+    if (r < 0 && errno != EEXIST && errno != ENOENT) real_failure("real-failure-mkdir");
     if (d == D_THEN_FAIL) { errno = err; n_failed++; return -1; }
     return r;
 }
@@ -328,6 +347,7 @@ int rename(const char *from, const char *to) {
     int d = decide(C_MUTATE, "rename", rel(to));
     if (d == D_FAIL) return -1;
     int r = real_rename(from, to);
+    if (r < 0) real_failure("real-failure-rename");
     if (d == D_THEN_FAIL) { errno = err; n_failed++; return -1; }
     return r;
 }
